@@ -35,7 +35,7 @@ import gtirb_rewriting._auxdata_offsetmap as _auxdata_offsetmap
 from .._auxdata_offsetmap import OFFSETMAP_AUX_DATA_TABLES
 from ..utils import _is_fallthrough_edge
 from .cache import ModifyCache
-from .edges import update_edge
+from .edges import update_edge, update_fallthrough_target
 from .functions import remove_function_block_aux
 
 logger = logging.getLogger(__name__)
@@ -106,6 +106,14 @@ def are_joinable(
         if any_out_edges and block2.size != 0:
             return JoinableResult(False, "block1 has outgoing edges")
 
+        if any_out_edges and any(block2.outgoing_edges):
+            # Joining gives block2's outgoing edges to block1, which is only
+            # right if control flows from block1 into block2.
+            return JoinableResult(
+                False,
+                "control does not flow from block1 into the empty block2",
+            )
+
         any_in_edges = any(
             edge
             for edge in block2.incoming_edges
@@ -153,9 +161,11 @@ def join_blocks(
     if isinstance(block2, gtirb.CodeBlock):
         assert isinstance(block1, gtirb.CodeBlock)
 
+        falls_into_block2 = False
         for in_edge in tuple(block2.incoming_edges):
             if _is_fallthrough_edge(in_edge) and in_edge.source is block1:
                 ir.cfg.discard(in_edge)
+                falls_into_block2 = True
 
         if not block1.size:
             for in_edge in tuple(block2.incoming_edges):
@@ -165,8 +175,16 @@ def join_blocks(
             for in_edge in tuple(block2.incoming_edges):
                 ir.cfg.discard(in_edge)
 
-        for out_edge in tuple(block2.outgoing_edges):
+        block2_out_edges = tuple(block2.outgoing_edges)
+        for out_edge in block2_out_edges:
             update_edge(out_edge, ir.cfg, source=block1)
+
+        if falls_into_block2 and not block2.size and not block2_out_edges:
+            # Control that fell into the empty block2 continues with the code
+            # that follows it, if any.
+            _, next_block = cache.adjacent_blocks(block2)
+            if isinstance(next_block, gtirb.CodeBlock):
+                update_fallthrough_target(cache, ir.cfg, block1, next_block)
 
         remove_function_block_aux(cache, block2)
 
